@@ -44,13 +44,13 @@ def gen_cases(tier, seed):
     rng = random.Random(181818 + seed)
     cases = []
     Ps = [1, 2, 3, 4, 6]
-    n = 12 if tier == "quick" else 200
+    n = 12 if tier == "quick" else 600
     for k in range(n):
         cases.append({"kind": "roundtrip", "npts": [rng.randint(6, 8) for _ in range(4)], "P1": rng.choice(Ps), "P2": rng.choice(Ps),
                       "layout": ["flux_surface", "v_parallel", "poloidal"][k % 3], "seed": rng.randrange(1 << 30), "cost": 100})
-    for k in range(12 if tier == "quick" else 300):
+    for k in range(12 if tier == "quick" else 900):
         cases.append({"kind": "constants", "mode": ["defaults", "perturbed", "perturbed-rp", "shuffled", "symbolic"][k % 5], "seed": rng.randrange(1 << 30), "cost": 2})
-    for k in range(6 if tier == "quick" else 60):
+    for k in range(6 if tier == "quick" else 150):
         times = sorted(set(rng.choice([0, 2, 8, 10, 14, 100, 250, 1000, 4096, 99998, 100000]) for _ in range(rng.randint(2, 5))))
         if k % 3 == 2:
             times = sorted(set(times + [999998, 1000000]))
